@@ -163,3 +163,32 @@ Theorem C06_pack_break_refuted :
   exists cpb addr mvs change, wfv change /\ ~ covers (pack_model_old (ovf_c cpb addr mvs 0) change) (massets change).
 Proof. exact pack_break_refuted. Qed.
 Print Assumptions C06_pack_break_refuted.
+
+(* liveness across the selection step, as far as it holds: if what the selectors hand over (explicit inputs + their answer)
+   exceeds the outputs by the largest fee of the transaction WITH those inputs plus the largest minimum ADA of an ADA-only
+   change, build () returns a body — for every selector answer, merge mode and fee estimator within the bounds *)
+Theorem C06_live_after_selection : forall minada pack est st merge explicit pool sel (outs : list output) fee0 maxfee minc,
+  ada_only (map u_val (inputs_after_selection explicit pool sel)) -> ada_only (map snd outs) -> b_mint st = [] ->
+  (forall o f, est o f <= maxfee) -> (forall c, minada (mkValue c []) <= minc) -> 0 < minc ->
+  coin (provided st (map u_val (inputs_after_selection explicit pool sel))) >= sum_coin (map snd outs) + maxfee + minc ->
+  exists r, build_tail minada pack est st merge (inputs_after_selection explicit pool sel) outs fee0 = inr r.
+Proof. exact live_after_selection. Qed.
+Print Assumptions C06_live_after_selection.
+
+(* REFUTED (known finding C06-liveness-fee-of-selected-inputs): the liveness clause at full strength — "registered funds exceed
+   the request by a clear margin => a transaction is returned" — does not follow from the selectors' contract, because the
+   request they are given carries the fee estimated BEFORE the selected inputs were added.  Concrete ADA-only wallet
+   (11.234567 + 10 + 9.999 ADA at one base address, one output of 10.089136 ADA, 20 ADA to spare): the largest-first answer
+   covers outputs + that fee and leaves its change the minimum ADA, and build () refuses (the real run: corpus/C06.json
+   live-lf-base, InsufficientUTxOBalanceException "Not enough ADA left for change: 977290 but needs 978370") *)
+Theorem C06_live_selection_request_refuted :
+  ada_only (map u_val lv_pool) /\ ada_only (map snd lv_outs) /\ b_mint lv_st = []
+  /\ selection_ok lv_pool lv_sel = true
+  /\ (let got := sum_coin (map u_val (pick_by_in lv_pool lv_sel)) in
+      let chg := got - sum_coin (map snd lv_outs) - lv_fee0 in
+      0 <= chg /\ minada_c 4310 lv_addr (mkValue chg []) <= chg)
+  /\ sum_coin (map u_val lv_pool) >= sum_coin (map snd lv_outs) + 20 * 1000000
+  /\ build_tail (minada_c 4310 lv_addr) (pack_c 4310 lv_addr 5000) lv_est lv_st false
+                (inputs_after_selection [] lv_pool lv_sel) lv_outs lv_fee0 = inl ErrInsufficient.
+Proof. exact live_selection_request_refuted. Qed.
+Print Assumptions C06_live_selection_request_refuted.
